@@ -38,6 +38,7 @@ class Inner(param.Parameterized):
 class V0(param.Parameterized):
     i = param.Integer(default=1)
     f = param.Number(default=0.5)
+    o = param.Number(default=2.5, allow_None=True)       # an explicit None differs from the (non-None) default
     s = param.String(default='d')
     t = param.Tuple(default=(0, 0), length=None) if False else param.Parameter(default=(0, 0))
     l = param.List(default=[])
@@ -86,7 +87,7 @@ def _compare(label, p, q, info, explicit_name):
         check('C20.explicit_name_kept', q.name == p.name, dict(info, orig=p.name, rebuilt=q.name))
 
 
-def prog(variant: int, grp: int, vi: int, vf: int, vs: int, vt: int, vl: int, vd: int, sub: int, nm: int, va: int, vb: int) -> None:
+def prog(variant: int, grp: int, vi: int, vf: int, vs: int, vt: int, vl: int, vd: int, sub: int, nm: int, va: int, vb: int, vo: int = 0) -> None:
     from sx.api import format_policy
     format_policy('faithful')
     variant = pick(variant, 0, 2)
@@ -96,6 +97,7 @@ def prog(variant: int, grp: int, vi: int, vf: int, vs: int, vt: int, vl: int, vd
     if grp == 0:
         kw['i'] = [1, 0, -7, 10 ** 20][pick(vi, 0, 3)]
         kw['f'] = FLOATS[pick(vf, 0, len(FLOATS) - 1)]
+        kw['o'] = [2.5, None, 0, 0.0][pick(vo, 0, 3)]
         n = NAMES[pick(nm, 0, len(NAMES) - 1)]
     elif grp == 1:
         kw['s'] = STRS[pick(vs, 0, len(STRS) - 1)]
@@ -179,7 +181,7 @@ def _run(variant, kw, n, grp, hist=None):
 
 prog.ranges = lambda consts: dict(variant=(0, 2), grp=(0, 4), vi=(0, 3), vf=(0, len(FLOATS) - 1), vs=(0, len(STRS) - 1),
                                   vt=(0, len(TUPLES) - 1), vl=(0, len(LISTS) - 1), vd=(0, len(DICTS) - 1), sub=(0, 3),
-                                  nm=(0, len(NAMES) - 1), va=(0, 1), vb=(0, 2))
+                                  nm=(0, len(NAMES) - 1), va=(0, 1), vb=(0, 2), vo=(0, 3))
 
 
 def autoname(tier):
@@ -230,6 +232,64 @@ def autoname(tier):
     return row
 
 
+def autoname_values(tier):
+    """K1b: the names values(onlychanged=True) drops as auto-generated (param._utils._is_auto_name) must all be names the
+    generator can produce; the pattern is rebuilt from the function's AST with the class name 'P'."""
+    import z3
+    from smtk import regex2z3
+    import os
+    src = open(os.path.join(os.environ.get('VERIF_REPO', '/repo'), 'param/_utils.py')).read()
+    row = dict(name='autoname_values_lang', label='C20.autoname_lang', queries=1)
+    fn = None
+    for node in ast.walk(ast.parse(src)):
+        if isinstance(node, ast.FunctionDef) and node.name == '_is_auto_name':
+            fn = node
+    call = None
+    if fn is not None:
+        for n in ast.walk(fn):
+            if isinstance(n, ast.Call) and getattr(n.func, 'attr', '') in ('match', 'fullmatch', 'search') and n.args:
+                call = n
+
+    def text(e):
+        """regex text of the pattern expression with the class name replaced by 'P' (None: not recognised)"""
+        if isinstance(e, ast.Constant) and isinstance(e.value, str):
+            return e.value
+        if isinstance(e, ast.Name) and fn is not None and e.id == fn.args.args[0].arg:
+            return 'P'
+        if isinstance(e, ast.Call) and getattr(e.func, 'attr', '') == 'escape' and len(e.args) == 1:
+            return text(e.args[0])
+        if isinstance(e, ast.BinOp) and isinstance(e.op, ast.Add):
+            a, b = text(e.left), text(e.right)
+            return None if a is None or b is None else a + b
+        return None
+    pat = text(call.args[0]) if call is not None else None
+    if pat is None:
+        row.update(status='error', error='pattern of param._utils._is_auto_name not recognised in the source')
+        return row
+    how = call.func.attr
+    try:
+        impl = regex2z3.match_language(pat)
+        if how == 'fullmatch':
+            impl = regex2z3.conv(regex2z3.sre_parse.parse(pat))
+        elif how == 'search' and not pat.startswith('^'):
+            impl = z3.Concat(z3.Star(regex2z3._any_char()), impl)
+    except regex2z3.Unsupported as e:
+        row.update(status='error', error='unsupported regex construct %s' % e)
+        return row
+    digit = z3.Range('0', '9')
+    spec = z3.Concat(z3.Re('P'), z3.Loop(digit, 5, 5), z3.Star(digit), z3.Option(z3.Re(chr(10))))
+    r, w, secs = regex2z3.inclusion(impl, spec, 9)
+    row.update(result=r, solver_s=round(secs, 3), pattern=pat, matcher=how)
+    if r == 'unsat':
+        row['status'] = 'ok'
+    elif r == 'sat':
+        row.update(status='violation', witness=w, info=dict(witness=w),
+                   replay=dict(module='harness.c20', fn='replay_name', args=dict(name=w), label='C20.autoname_lang', property='C20'))
+    else:
+        row.update(status='error', error='solver returned %s' % r)
+    return row
+
+
 def replay_name(name):
     class P(param.Parameterized):
         x = param.Integer(default=0)
@@ -238,10 +298,13 @@ def replay_name(name):
     text = p.param.pprint()
     auto = re.fullmatch('P[0-9]{5,}', name) is not None
     check('C20.autoname_lang', ("name=" in text) == (not auto), dict(name=name, text=text))
+    if not auto:
+        q = eval(text, {'P': P})
+        check('C20.autoname_lang', q.name == name, dict(name=name, text=text, rebuilt=q.name))
 
 
 def extra(tier):
-    return [autoname(tier)]
+    return [autoname(tier), autoname_values(tier)]
 
 
 def shards(tier):
@@ -250,6 +313,8 @@ def shards(tier):
         for grp in range(5):
             out.append(dict(name='v%d_g%d' % (variant, grp), module='harness.c20', fn='prog', consts=dict(variant=variant, grp=grp),
                             budget_s=60 if tier == 'quick' else 300))
+        out.append(dict(name='v%d_g0_none' % variant, module='harness.c20', fn='prog', consts=dict(variant=variant, grp=0, vi=0, vf=0, nm=0),
+                        budget_s=30))
     return out
 
 
